@@ -16,6 +16,7 @@
 package meta
 
 import (
+	"bytes"
 	"regexp/syntax"
 )
 
@@ -41,6 +42,10 @@ type AnchoredLiteralInfo struct {
 
 	// WildcardMin is 0 for .* or 1 for .+
 	WildcardMin int
+
+	// WildcardExcludesNL is true when the wildcard is the default dot, which
+	// does not match '\n' (false for (?s:.)).
+	WildcardExcludesNL bool
 
 	// MinLength is the minimum input length for a possible match.
 	// Calculated as: len(Prefix) + WildcardMin + CharClassMin + len(Suffix)
@@ -102,6 +107,7 @@ func DetectAnchoredLiteral(re *syntax.Regexp) *AnchoredLiteralInfo {
 	var prefix []byte
 	var wildcardIdx = -1
 	var wildcardMin int
+	var wildcardExcludesNL bool
 	var charClassTable *[256]bool
 	var charClassMin int
 
@@ -117,6 +123,7 @@ func DetectAnchoredLiteral(re *syntax.Regexp) *AnchoredLiteralInfo {
 			}
 			wildcardIdx = i
 			wildcardMin = getWildcardMin(sub)
+			wildcardExcludesNL = sub.Sub[0].Op == syntax.OpAnyCharNotNL
 		} else if wildcardIdx == -1 {
 			// Before wildcard - must be literal (prefix)
 			lit := extractLiteral(sub)
@@ -139,6 +146,13 @@ func DetectAnchoredLiteral(re *syntax.Regexp) *AnchoredLiteralInfo {
 			// After wildcard - must be charclass+ or nothing
 			if isCharClassPlus(sub) && i == suffixIdx-1 {
 				// Charclass bridge right before suffix
+				// Non-ASCII class members are multi-byte sequences; the byte
+				// table of the bridge cannot represent them.
+				for _, r := range sub.Sub[0].Rune {
+					if r > 127 {
+						return nil
+					}
+				}
 				charClassTable = buildCharClassTable(sub.Sub[0])
 				charClassMin = 1 // Plus requires at least 1
 			} else {
@@ -163,17 +177,22 @@ func DetectAnchoredLiteral(re *syntax.Regexp) *AnchoredLiteralInfo {
 		CharClassMin:   charClassMin,
 		WildcardMin:    wildcardMin,
 		MinLength:      minLen,
+
+		WildcardExcludesNL: wildcardExcludesNL,
 	}
 }
 
 // isStartAnchor returns true if re is a start anchor (^ or \A).
 func isStartAnchor(re *syntax.Regexp) bool {
-	return re.Op == syntax.OpBeginText || re.Op == syntax.OpBeginLine
+	// Only \A / non-multiline ^: a multiline ^ also matches after every '\n',
+	// so the match need not start at offset 0.
+	return re.Op == syntax.OpBeginText
 }
 
 // isEndAnchor returns true if re is an end anchor ($ or \z).
 func isEndAnchor(re *syntax.Regexp) bool {
-	return re.Op == syntax.OpEndText || re.Op == syntax.OpEndLine
+	// Only \z / non-multiline $: a multiline $ also matches before every '\n'.
+	return re.Op == syntax.OpEndText
 }
 
 // isGreedyWildcard returns true if re is .* or .+ (greedy).
@@ -213,10 +232,13 @@ func extractLiteral(re *syntax.Regexp) []byte {
 	if re.Op != syntax.OpLiteral {
 		return nil
 	}
+	if re.Flags&syntax.FoldCase != 0 {
+		return nil // case-insensitive literal: byte comparison would be wrong
+	}
 	// Convert runes to bytes (assuming ASCII for now)
 	result := make([]byte, 0, len(re.Rune))
 	for _, r := range re.Rune {
-		if r > 255 {
+		if r >= 0x80 {
 			// Non-ASCII literal - still valid but needs UTF-8 encoding
 			// For simplicity, encode as UTF-8
 			buf := make([]byte, 4)
@@ -320,7 +342,19 @@ func MatchAnchoredLiteral(input []byte, info *AnchoredLiteralInfo) bool {
 
 	// If no charclass bridge required, we're done
 	// (wildcard .* matches everything between prefix and suffix)
+	// lastNL is the offset of the last '\n' between prefix and suffix that the
+	// wildcard would have to cross, or -1.
+	lastNL := -1
+	if info.WildcardExcludesNL && suffixStart > len(info.Prefix) {
+		if k := bytes.LastIndexByte(input[len(info.Prefix):suffixStart], '\n'); k >= 0 {
+			lastNL = len(info.Prefix) + k
+		}
+	}
+
 	if info.CharClassTable == nil {
+		if lastNL >= 0 {
+			return false // the default dot does not match '\n'
+		}
 		// Still need to verify wildcard minimum
 		middleLen := suffixStart - len(info.Prefix)
 		return middleLen >= info.WildcardMin
@@ -346,6 +380,12 @@ func MatchAnchoredLiteral(input []byte, info *AnchoredLiteralInfo) bool {
 			// The charclass MUST be immediately before suffix, so we're done
 			break
 		}
+	}
+
+	if lastNL >= 0 && lastNL < charClassEnd-found {
+		// A '\n' lies in the part only the wildcard can cover (it is not
+		// inside the class run before the suffix).
+		return false
 	}
 
 	return found >= info.CharClassMin
